@@ -1,5 +1,5 @@
 ENGINES = [
-    {"name": "pyvc", "path": "/verif/pyvc", "serves_properties": ["C01", "C02", "C04", "C05", "C08", "C09", "C17"],
+    {"name": "pyvc", "path": "/verif/pyvc", "serves_properties": ["C01", "C02", "C04", "C05", "C08", "C09", "C17", "C19"],
      "kind_free_text": "own verification-condition generator: symbolic execution of the AST of the real functions (re-read from /repo on every run) against sidecar contracts, discharged with z3; bounded run-time contract checking of the real functions as labelled stand-in"},
 ]
 NOTES = ("Contract-based deductive verification with an own VC generator (PyVC) over the real source; see DESIGN.md. "
@@ -40,5 +40,10 @@ CHECKS.append(
      "text": "the mechanism that makes pickles hash-seed independent is proved per node class (incl. fixture and legacy classes): __getstate__ returns exactly the fields (the cached, process-local hash never enters the state), __setstate__ assigns exactly the fields and never _hash_value, a fresh hash is computed from the fields, SpecEq => equal hash; the inputs of the persistent digest are proved free of id()/hash()/set order; the two-process statement itself is executed: producer/consumer interpreters with different PYTHONHASHSEED and -O, all protocols, histories of hash/compare/pickle operations, compiled expressions",
      "note": "pickle/copyreg semantics, str.encode/repr/hashlib determinism are trusted; the cross-process runs are a bounded stand-in (not proved); known findings C17-digest-kw-order and C17-digest-constant-type (digest does not respect ==)",
      "technique": "deductive: per-class state-method and hash obligations (shared with C01), taint scan of the symbolic digest log, z3; bounded two-process execution"})
+CHECKS.append(
+    {"id": "C19", "category": "proof",
+     "text": "integer_power proved for all integers x and all exponents (loop invariant aux*x^n = x0^n0, lemma pw(x*x,k) = pw(x,2k) proved by induction, variant n, negative n raises RuntimeError); extended_euclidean proved for all integer pairs (Bezout identity and divisibility of both inputs through ghost inverse coefficients, recursion through its own contract, variant |r|); gcd through the callee contract. FFT/ifft/sym_fft (floating point, tolerance), polynomial arithmetic and division, lcm, find_factors, the integer quotient node and integer_power over Fractions/matrices are a bounded stand-in (lengths 1..64, integer box, ~200 sparse polynomials)",
+     "note": "A-INT; common_traits on ints assumed to be IntegerTraits; z3 nonlinear integer arithmetic trusted; A-FLOAT: no deductive content for the FFT; polynomial merge loops and __divmod__ not under contract (bounded only)",
+     "technique": "deductive: loop invariants + variants + ghost state + inductive lemma, VCs from the real AST, z3 (NIA); bounded exhaustive boxes / numeric comparison for the rest"})
 _PENDING = "check not built yet in this session (planned per DESIGN.md section 5); not claimed until its check exists"
 NOT_APPLICABLE = [{"property_id": f"C{i:02d}", "reason": _PENDING} for i in range(1, 21) if f"C{i:02d}" not in {c["id"] for c in CHECKS}]
